@@ -127,6 +127,80 @@ def run(prog, R):
             s = show(got[2][0]) if got is not None and got[0] == "adt" and got[2] else None
             R.ob("C05.2-prefix-op_kind", name, s == want, prog.body("oq3_syntax::ast::expr_ext::PrefixExpr::op_kind").at, f"{name} => {s}; expected {want}")
 
+    import roles
+    roles.check(prog, R, "C05.3-ROLE-positional")
+    # ---- C05.4 one node per application: a node opened around an already parsed operand (`lhs.precede(p)`: binary,
+    # index, call, cast-like postfix forms) is completed before control can loop, so that `a[i][j]`, `a+b+c`, ..
+    # nest (one node per operator application, as in the derivation) instead of flattening into one node
+    npre = 0
+    for b in prog.by_crate["oq3_parser"]:
+        if not b.npath.startswith("oq3_parser::grammar::"):
+            continue
+        pres = [bi for bi, t in b.calls() if (b.callee_of(t) or "").endswith("CompletedMarker::precede")]
+        if not pres:
+            continue
+        closes = {bi for bi, t in b.calls() if (b.callee_of(t) or "").endswith(("Marker::complete", "Marker::abandon"))}
+        succ = b.succ()
+        for o, pb in enumerate(pres):
+            npre += 1
+            # region reachable from the precede block without passing a close
+            region, stack = set(), [pb]
+            while stack:
+                x = stack.pop()
+                if x in region or b.blocks[x].cleanup:
+                    continue
+                region.add(x)
+                if x in closes and x != pb:
+                    continue
+                stack.extend(succ[x])
+            inner = region - closes
+            # blocks of the region that lie on a cycle inside it
+            def reach(x0):
+                seen, st = set(), [y for y in succ[x0] if y in inner]
+                while st:
+                    y = st.pop()
+                    if y in seen:
+                        continue
+                    seen.add(y)
+                    st.extend(z for z in succ[y] if z in inner)
+                return seen
+            loopb = {x for x in inner if x in reach(x)}
+            if not loopb:
+                R.ob("C05.4-one-node-per-application", f"{short(b.npath)}:{o}", True, b.blocks[pb].term["at"], f"{len(inner)} blocks between precede and the node's completion, loop-free")
+                continue
+            # a loop is legitimate only for a node that is a *list* by design: the typed AST of the completed kind
+            # offers an AstChildren<..> accessor for the kind of node the loop body builds
+            def camel(k):
+                return "".join(w.capitalize() for w in k.split("_"))
+
+            def kinds_completed(body, blocks=None):
+                out = set()
+                for bi, t in body.calls():
+                    if (blocks is None or bi in blocks) and (body.callee_of(t) or "").endswith("Marker::complete"):
+                        for og in origins(prog, body, t["args"][2], max_depth=3):
+                            out.add(og[2] if og[0] == "agg" else "?")
+                return out
+            node_kinds = kinds_completed(b, region & closes)
+            child_kinds = set()
+            for x in loopb:
+                t = b.blocks[x].term
+                if t["k"] == "call":
+                    cal = b.callee_of(t) or ""
+                    if cal.startswith("oq3_parser::grammar::") and prog.body(cal):
+                        child_kinds |= kinds_completed(prog.body(cal))
+            okl = bool(node_kinds) and bool(child_kinds) and "?" not in node_kinds | child_kinds
+            det = []
+            for nk in sorted(node_kinds):
+                for ck in sorted(child_kinds):
+                    want = f"oq3_syntax::ast::AstChildren<oq3_syntax::ast::generated::nodes::{camel(ck)}>"
+                    pref = f"oq3_syntax::ast::generated::nodes::{camel(nk)}::"
+                    has = [k for k, ab in prog.bodies.items() if k.startswith(pref) and "{closure" not in k and ab.local_ty(0) == want]
+                    det.append(f"{camel(nk)} -> AstChildren<{camel(ck)}>: {[h.split('::')[-1] for h in has] or 'NO list accessor'}")
+                    okl = okl and bool(has)
+            R.ob("C05.4-one-node-per-application", f"{short(b.npath)}:{o}", okl, b.blocks[pb].term["at"],
+                 ("loop between precede and completion builds a list node by design: " if okl else
+                  "a loop lies between `lhs.precede(p)` and the completion of the node, but the typed AST reads a single child there: repeated applications (e.g. several subscripts) are collected into one node instead of nesting, and all but the first are unreachable through the accessors: ") + "; ".join(det))
+    R.floor("precede sites in the grammar", npre, 5)
     # ---- C05.4 nesting mechanism in expr_bp
     rec = [(bi, t) for bi, t in eb.calls() if eb.callee_of(t) == EXPR_BP]
     ok = len(rec) == 1
